@@ -75,6 +75,11 @@ func (c *ClickhouseGetterPlanner) Scan(ctx *PlannerContext, rows *sql.Rows, res 
 			i = 0
 		}
 	}
+	if err := rows.Err(); err != nil {
+		entries[i].Err = err
+		res <- entries[:i+1]
+		return
+	}
 	entries[i].Err = io.EOF
 	res <- entries[:i+1]
 }
@@ -114,6 +119,11 @@ func (c *ClickhouseGetterPlanner) ScanMatrix(ctx *PlannerContext, rows *sql.Rows
 			entries = make([]LogEntry, 100)
 			i = 0
 		}
+	}
+	if err := rows.Err(); err != nil {
+		entries[i].Err = err
+		res <- entries[:i+1]
+		return
 	}
 	entries[i].Err = io.EOF
 	res <- entries[:i+1]
